@@ -308,6 +308,10 @@ fn parse_txt_payload(payload: &str) -> Result<Vec<ScionIpAddr>, TxtParseError> {
         }
 
         remaining = rest[1..].trim();
+        if remaining.is_empty() {
+            // a separator must be followed by another entry (no trailing comma)
+            return Err(TxtParseError::ExpectedOpenBracket(remaining.to_string()));
+        }
     }
 
     Ok(addresses)
